@@ -21,6 +21,17 @@ CLAIMED = {
                 'Correspondence over codes x messages x data shapes x exception types, as call / notification / batch element.',
                 note='Kernel + standard axioms; statements are for the library without user error handlers on the code in question (handlers are C12); '
                 'the loader accepting NaN/Infinity (D20) is a recorded finding decided by the oracle.'),
+    'C10': dict(ref='§4 C10', text='Lean theorems: schedule_independence / complete_schedule_results (any number of processes, segments, any schedule) for non-interfering processes; '
+                'the dispatcher\'s element handlers are such processes (handler_segments_noninterfering); corollaries C10_order_and_identity, C10_async_batch_equals_sync, '
+                'C10_exactly_once (per-element log projection = the element\'s own events, every one once, under every complete schedule) and C10_sequential_no_overlap. '
+                'Tied by running the real AsyncDispatcher under a harness-controlled scheduler over enumerated interleavings (<=3 elements x <=2 suspension points quick, <=4 thorough) '
+                'of suspension points in method bodies, the outer middleware and error handlers, concurrent and sequential mode; the effective schedule is replayed on the model.',
+                note='Kernel + standard axioms; asyncio itself (tasks switch only at await, gather keeps argument order, call_soon FIFO) is assumed and exercised, not modelled: a scheduler bug in the event loop cannot be exhibited by the model.'),
+    'C11': dict(ref='§4 C11', text='Lean theorems C11_dispatchers_agree / C11_same_executions / C11_plain_functions_in_async: dispatchAsync (separate definition, through gather and the scheduler) returns exactly dispatch\'s document and codes '
+                'for every configuration, load result, context, placement of suspension points and complete schedule, with the same per-element executions. '
+                'Every case of the dispatch, registry and async suites runs on both real halves (plus the async dispatcher with plain functions); besides model-vs-half the halves are diffed directly. '
+                'Client twins: one model per role, both implementations checked against it (suites of C07-C09, C19) and against each other.',
+                note='Kernel + standard axioms; the twin diff is an implementation-side oracle; asyncio assumed as for C10.'),
     'C12': dict(ref='§4 C12', text='Lean theorems: chain order for n pass-through middlewares (enter 0..n-1, inner, leave n-1..0), short circuit at position k, chain result is what is sent, '
                 'per-element logs concatenate, handler fold (generic then per original code, each once), handlers never on success or rejected documents. '
                 'Correspondence over stacks of 0..3 middlewares of six kinds x handler tables x request kinds on both dispatchers.',
